@@ -213,7 +213,9 @@ func decCall(d *csproto.Decoder, op decOp) (res decResult) {
 		var v []float32
 		v, err = d.DecodePackedFloat32()
 		capCells = cap(v)
-		rer = func() string { return "N" + joinU(v, func(x float32) string { return u64s(uint64(math.Float32bits(x))) }) }
+		rer = func() string {
+			return "N" + joinU(v, func(x float32) string { return u64s(uint64(math.Float32bits(x))) })
+		}
 		item = rer()
 	case "pfloat64":
 		var v []float64
